@@ -1462,8 +1462,8 @@ class Memoer(Tymee):
                 if not vid:
                     vid = self.vids.get(mid.decode()) # if not then get from .vids
                     vid = vid.encode() if vid is not None else b""
-            elif code in AckDex:
-                pass
+            elif code in AckDex:  # acks are not memo grams, nothing to pick
+                raise hioing.MemoerError(f"Unsupported ack {code=}")
             else:
                 raise hioing.MemoerError(f"Invalid {code=}")
 
@@ -1500,8 +1500,8 @@ class Memoer(Tymee):
                 if not vid:
                     vid = self.vids.get(mid.decode()) # if not then get from .vids
                     vid = vid.encode() if vid is not None else b""
-            elif code in AckDex:
-                pass
+            elif code in AckDex:  # acks are not memo grams, nothing to pick
+                raise hioing.MemoerError(f"Unsupported ack {code=}")
             else:
                 raise hioing.MemoerError(f"Invalid {code=}")
 
